@@ -3,6 +3,7 @@
 from __future__ import annotations
 
 import ast
+import re as _re
 import string
 
 from ..core import expand_locals, single_defs, AnalysisError, Check, Scope, dotted, norm, strip_docstring, walk_no_nested
@@ -96,8 +97,17 @@ class C07(Check):
         fill = [s for s in body if isinstance(s, ast.For) and norm(s.iter) == "model.get_parameter_names()" and
                 any(isinstance(x, ast.Assign) and norm(x.targets[0]).startswith("parameters[") for x in ast.walk(s))]
         src = [s for s in body if isinstance(s, ast.Assign) and norm(s.targets[0]) == "parameters"]
+        from ..core import expand_locals as _xl, single_defs as _sd
+
+        defs_g2 = {k_: v_ for k_, v_ in _sd(gen, anywhere=True).items() if "all_parameter_values" in norm(v_)}
+
+        def _cache_based(e_):
+            return "all_parameter_values" in norm(_xl(e_, defs_g2, depth=2))
+
         merged = [s for s in body if isinstance(s, ast.AugAssign) and norm(s.target) == "parameters" and isinstance(s.op, ast.BitOr)
-                  and "model.get_parameter_names()" in norm(s.value) and "all_parameter_values" in norm(s.value)]
+                  and "model.get_parameter_names()" in norm(s.value) and _cache_based(s.value)]
+        merged += [s for s in body if isinstance(s, ast.Expr) and isinstance(s.value, ast.Call) and norm(s.value.func) == "parameters.update" and s.value.args
+                   and "model.get_parameter_names()" in norm(s.value.args[0]) and _cache_based(s.value.args[0])]
         fill = fill or merged
         # the fill adds exactly the names that are missing: a name not yet among the plain values gets its cached value
         fill_bad = None
@@ -115,13 +125,13 @@ class C07(Check):
                     fill_bad = "a parameter name that is not among the plain values gets no value"
                 if stores_ and missing and not missing[0]:
                     fill_bad = "the plain values are overwritten while the assignment-defined parameters get no value"
-                if stores_ and "all_parameter_values" not in stores_[0][2]:
+                if stores_ and "all_parameter_values" not in stores_[0][2] and not any(k_ in stores_[0][2] for k_ in defs_g2):
                     fill_bad = f"the added value is `{stores_[0][2][:50]}`, not the cached resolved value"
                 n_add += 1 if stores_ else 0
             if not n_add:
                 fill_bad = fill_bad or "no path of the loop adds a value"
         elif merged:
-            comps_ = [c_ for c_ in ast.walk(merged[0].value) if isinstance(c_, ast.DictComp)]
+            comps_ = [c_ for c_ in ast.walk(merged[0]) if isinstance(c_, ast.DictComp)]
             if comps_ and comps_[0].generators[0].ifs:
                 t_ = comps_[0].generators[0].ifs[0]
                 if not (isinstance(t_, ast.Compare) and len(t_.ops) == 1 and isinstance(t_.ops[0], ast.NotIn) and norm(t_.comparators[0]) == "parameters"):
@@ -217,7 +227,16 @@ class C07(Check):
                 self.holds("G7", MOD, fname, "free-parameters", calls[0], "free parameters are forwarded to the generator and appended to the signature")
             else:
                 self.violated("G7", MOD, fname, "free-parameters", calls[0], f"{lang} back end does not forward / declare the free parameters")
-        pops = [s for s in body if isinstance(s, ast.If) and norm(s.test) == "free_parameters is not None" and ("parameters.pop(key)" in norm(s) or "del parameters[key]" in norm(s))]
+        def _removes_free(s_):
+            for l_ in ast.walk(s_):
+                if isinstance(l_, ast.For) and norm(l_.iter) == "free_parameters" and isinstance(l_.target, ast.Name):
+                    v_ = l_.target.id
+                    if any((isinstance(x_, ast.Call) and norm(x_.func) == "parameters.pop" and x_.args and norm(x_.args[0]) == v_)
+                           or (isinstance(x_, ast.Delete) and any(norm(t_) == f"parameters[{v_}]" for t_ in x_.targets)) for x_ in ast.walk(l_)):
+                        return True
+            return False
+
+        pops = [s for s in body if isinstance(s, ast.If) and norm(s.test) in ("free_parameters is not None", "free_parameters") and _removes_free(s)]
         emit_p = [i for i, s in enumerate(body) if isinstance(s, ast.If) and norm(s.test) in ("len(parameters) > 0", "parameters", "len(parameters) != 0")]
         # nothing may put names back into `parameters` after the free ones were removed
         refill = [i for i, s_ in enumerate(body) if pops and body.index(pops[0]) < i < (emit_p[0] if emit_p else len(body)) and any(
@@ -292,7 +311,7 @@ class C07(Check):
         emitted: dict[str, bool] = {}
         for stp in iter_paths:
             for e in stp.events:
-                if e[0] != "call" or not e[1].startswith("source.append(assignment_template.format("):
+                if e[0] != "call" or not _re.match(r"^\w+\.append\(assignment_template\.format\(", e[1]):
                     continue
                 c = ast.parse(e[1], mode="eval").body.args[0]
                 kwv = {k.arg: k.value for k in c.keywords}.get("v")
